@@ -2812,18 +2812,28 @@ func rulePXRegister(c *Ctx) []Obligation {
 	reg := c.registerFn()
 	fn := fname(reg)
 	valid, guess := c.role("isValidAlias"), c.role("guessAlias")
-	if valid == nil || guess == nil {
-		o.undecided(fn, "helpers", reg.Pos(), "anchor lost: the validity predicate (a (string) bool File method that ranges over the import table / calls IsReservedWord) or the alias guesser ((string) string) is not called from the registration function")
+	if guess == nil {
+		o.undecided(fn, "helpers", reg.Pos(), "anchor lost: the alias guesser ((string) string) is not called from the registration function")
 		return o.list
 	}
+	// Without a validity predicate called as such (the test may be spread over helpers, or work on a
+	// snapshot of the taken names) everything but the reserved-word predicate and the guesser is
+	// inlined, and validity is read off the facts at the store: see validAtStore.
+	inlined := valid == nil
+	resv := c.jenFunc("IsReservedWord")
 	_, stdName, _, okStd := c.stdHintsTable()
 	if !okStd {
 		o.undecided(fn, "standard-library table", reg.Pos(), "anchor lost: no constant map[string]string table is read during registration")
 	}
 	imp, hints := "recv."+c.ff("imports"), "recv."+c.ff("hints")
 	nameF, aliasF := c.ff("defname"), c.ff("defalias")
-	opq := map[*ssa.Function]bool{valid: true, guess: true}
-	paths, trunc := c.Paths(reg, PXConfig{MaxVisits: 4, MaxDepth: 4, Opaque: func(f *ssa.Function) bool { return opq[f] }})
+	opq := map[*ssa.Function]bool{guess: true}
+	if inlined {
+		opq[resv] = true
+	} else {
+		opq[valid] = true
+	}
+	paths, trunc := c.Paths(reg, PXConfig{MaxVisits: 4, MaxDepth: 4, MaxPaths: 200000, Opaque: func(f *ssa.Function) bool { return opq[f] }})
 	if trunc || len(paths) == 0 {
 		o.undecided(fn, "path enumeration", reg.Pos(), "%d paths, truncated %v", len(paths), trunc)
 		return o.list
@@ -2882,7 +2892,7 @@ func rulePXRegister(c *Ctx) []Obligation {
 				stores = append(stores, *e)
 			case e.Kind == "mapupdate" || e.Kind == "store":
 				t.note("registration stores nothing but the import entry", false, "path %s stores to %s", traceOf(p), e.Recv)
-			case e.Kind == "call" && e.Fn == valid:
+			case e.Kind == "call" && e.Fn == valid && valid != nil:
 				lastValid = e
 				if F.Has(e.Res.String(), false) && len(e.Args) == 2 {
 					rejected = append(rejected, e.Args[1].String())
@@ -2929,6 +2939,11 @@ func rulePXRegister(c *Ctx) []Obligation {
 		if lastValid != nil && len(lastValid.Args) == 2 {
 			lv = lastValid.Args[1].String()
 		}
+		if inlined {
+			var whyV string
+			okChecked, whyV = c.validAtStore(p, F, name.String(), imp, nameF)
+			lv = "<validity inlined: " + whyV + ">"
+		}
 		t.note("the name stored is the very name that passed the validity test", okChecked, "path %s stores %s but the last accepted candidate was %s: uniqueness / legality was established for a different string (e.g. prefix applied afterwards)", traceOf(p), name, lv)
 		t.note("the name returned is the name stored", ret.String() == name.String(), "path %s returns %s but stores %s", traceOf(p), ret, name)
 		// coherence of name class and alias flag
@@ -2957,7 +2972,7 @@ func rulePXRegister(c *Ctx) []Obligation {
 		}
 		// modifications never touch "."
 		if class == "modified" {
-			notDot := F.Has(`eq(".",`+base+`)`, false) || strings.HasPrefix(base, fname(guess)+"(")
+			notDot := F.Has(`eq(".",`+base+`)`, false) || F.Has(eqAtom(`"."`, base), false) || strings.HasPrefix(base, fname(guess)+"(")
 			for _, rj := range rejected {
 				if rj == base {
 					notDot = true // the unmodified name was rejected, and "." is always accepted
@@ -2988,7 +3003,18 @@ func rulePXValidAlias(c *Ctx) []Obligation {
 	o := c.newObs("P-VALIDALIAS")
 	f := c.role("isValidAlias")
 	if f == nil {
-		o.undecided("(*jen.File).isValidAlias", "anchor", token.NoPos, "anchor lost: no (string) bool File method called by the registration function that examines the import table / reserved words")
+		// no validity predicate called as such by the registration function: the test is inlined into
+		// the registration paths and judged there (P-REGISTER, validAtStore)
+		reg := c.registerFn()
+		key := "the name stored is the very name that passed the validity test"
+		st, detail := Undecided, "P-REGISTER did not reach the store"
+		for _, ob := range c.run("P-REGISTER") {
+			if strings.HasSuffix(ob.Key, "| "+key) {
+				st, detail = ob.Status, ob.Detail
+			}
+		}
+		o.add(st, fname(reg), "validity (not \".\" ⇒ not reserved and different from every registered name) is established on the registration paths themselves", reg.Pos(), true,
+			"no separate validity predicate is called by the registration function; judged with every helper inlined: %s", detail)
 		return o.list
 	}
 	fn := fname(f)
@@ -3281,4 +3307,62 @@ func (c *Ctx) dotFact(F Facts, hint string) (val, known bool) {
 		return w[0], true
 	}
 	return false, false
+}
+
+// validAtStore (P-REGISTER with the validity test inlined): the name n stored on path p is legal and
+// unique if the facts say it is ".", or say that it is not a reserved word and that, in one scan of
+// the import table that ran to exhaustion, it differed from the name of every entry — whether the
+// comparisons were made directly or through a path-local set of the taken names.
+func (c *Ctx) validAtStore(p *PXPath, F Facts, n, imp, nameF string) (bool, string) {
+	if v := fact3(F, eqAtom(`"."`, n)); v[1] && v[0] {
+		return true, "the name is \".\""
+	}
+	resOK := false
+	for atom, pol := range F {
+		if !pol && strings.HasPrefix(atom, "jen.IsReservedWord("+n+")") {
+			resOK = true
+		}
+	}
+	if !resOK {
+		return false, "not known not to be a reserved word"
+	}
+	// scans of the import table, by range instance
+	type scan struct {
+		entries   []string
+		exhausted bool
+	}
+	scans := map[int]*scan{}
+	for _, atom := range p.Order {
+		rg := rangeOfNextAtom(p.Terms[atom])
+		if rg == nil || len(rg.A) != 1 || rg.A[0].String() != imp {
+			continue
+		}
+		sc := scans[rg.Inst]
+		if sc == nil {
+			sc = &scan{}
+			scans[rg.Inst] = sc
+		}
+		if F[atom] {
+			sc.entries = append(sc.entries, strings.TrimSuffix(atom, "#0"))
+		} else {
+			sc.exhausted = true
+		}
+	}
+	why := "no exhausted scan of the import table in which the name differs from every entry"
+	for _, sc := range scans {
+		if !sc.exhausted {
+			continue
+		}
+		all := true
+		for _, e := range sc.entries {
+			if v := fact3(F, eqAtom(n, e+"#2."+nameF)); !(v[1] && !v[0]) {
+				all = false
+				why = "not known to differ from the name of entry " + e
+			}
+		}
+		if all {
+			return true, fmt.Sprintf("not reserved; differs from all %d entries of an exhausted scan", len(sc.entries))
+		}
+	}
+	return false, why
 }
